@@ -27,15 +27,16 @@ type wire struct {
 	addr string
 }
 
-var wires = map[http.Handler]*wire{}
+var wires = map[interface{}]*wire{}
 
-func wireOf(h http.Handler) *wire {
-	if w, ok := wires[h]; ok {
+// wireOf: one real server per world (key = pointer to the world)
+func wireOf(key interface{}, h http.Handler) *wire {
+	if w, ok := wires[key]; ok {
 		return w
 	}
 	ts := httptest.NewServer(h)
 	w := &wire{ts: ts, addr: ts.Listener.Addr().String()}
-	wires[h] = w
+	wires[key] = w
 	return w
 }
 
